@@ -1519,6 +1519,11 @@ fn check_for_read_only_key(key: &str, client_id: ClientId) -> WorterbuchResult<(
     Err(WorterbuchError::ReadOnlyKey(key.to_owned()))
 }
 
+#[cfg(feature = "verif")]
+pub fn verif_check_for_read_only_key(key: &str, client_id: ClientId) -> WorterbuchResult<()> {
+    check_for_read_only_key(key, client_id)
+}
+
 fn escape_wildcards(pattern: &str) -> String {
     pattern.replace('#', "%23").replace('?', "%3F")
 }
